@@ -1,10 +1,15 @@
 // C06: BufferedFd / TcpConnection byte-stream preservation on a real loop + socketpair (engine H).
-// usage: harness hist <engine> <depth> <mode: bfd|tcp> <threshold> <policy> <max_deviations> <part> <nparts> [cb=N] [ev=N] [bind=N]
+// usage: harness hist <engine> <depth> <mode: bfd|tcp> <threshold> <policy> <max_deviations> <part> <nparts> [cb=N] [ev=N] [bind=N] [shrink=N] [kind=N]
 //          cb : behaviour of the user callbacks (re-entrant calls): 0 record only, 1 the first two send-complete callbacks send 2 bytes,
 //               2 the receive callback echoes (sends back) the bytes it consumed, 3 the first receive callback pauses the descriptor
-//               (BufferedFd::disable(), resumed by a later enable) / disconnects the connection (TcpConnection::disconnect())
+//               (BufferedFd::disable(), resumed by a later enable) / disconnects the connection (TcpConnection::disconnect()),
+//               4 the receive callback shrinks the receive buffer (and, at BufferedFd level, the send buffer) after its partial hasRead;
+//                 the send-complete callback shrinks the send buffer
 //          ev : events handed to BufferedFd::initialize(): 3 read+write (default), 1 kReadOnly, 2 kWriteOnly          (bfd mode only)
 //          bind=1 : the menu also offers bind(receiver)/unbind(); the receiver is a ByteStream of the harness that records what is forwarded
+//          shrink=1 : the menu also offers shrinkSendBuffer() / shrinkRecvBuffer() (tcp mode: getReceiveBuffer()->shrink())
+//          kind : 0 socketpair, both ends non-blocking (default); 1 socketpair whose BufferedFd end is handed over BLOCKING (initialize() must
+//                 switch it itself); 2 pipe(2), BufferedFd end blocking: read end with ev=1, write end with ev=2            (bfd mode only)
 //        harness bulk <engine>        large sends against real kernel back-pressure
 //        harness bulkrecv <engine>    large receives (callback / forwarding to a second real BufferedFd with a slow reader)
 //
@@ -13,6 +18,7 @@
 // are not counted as lost. While a receiver is bound, received bytes go to the receiver instead of the callback (ByteStream::bind contract);
 // "delivered" below means consumed by the callback or forwarded to the receiver - one ordered stream, decided by the reference model only.
 #include "hist/hist.h"
+#include "probe.h"
 #include <tbox/event/loop.h>
 #include <tbox/event/fd_event.h>
 #include <tbox/network/buffered_fd.h>
@@ -22,27 +28,53 @@
 #include <sys/syscall.h>
 #include <sys/uio.h>
 #include <errno.h>
+#include <fcntl.h>
 using namespace tbox;
 
-// ---- fd I/O deviation injector (legal kernel answers: short write, EAGAIN, short read) ----
-static int inj_fd = -1; static int dev_write_clamp = -1; static bool dev_write_eagain = false; static int dev_readv_clamp = -1; static long long fd_written = 0;
-extern "C" ssize_t write(int fd, const void *b, size_t n) {
-  if (fd == inj_fd) { if (dev_write_eagain) { dev_write_eagain = false; errno = EAGAIN; return -1; }
-    if (dev_write_clamp >= 0 && (size_t)dev_write_clamp < n) { n = (size_t)dev_write_clamp; dev_write_clamp = -1; } }
-  ssize_t r = syscall(SYS_write, fd, b, n); if (fd == inj_fd && r > 0) fd_written += r; return r;
-}
-extern "C" ssize_t readv(int fd, const struct iovec *iov, int cnt) {
-  if (fd == inj_fd && dev_readv_clamp >= 0 && cnt > 0) {       // short read: only up to k bytes into the first non-empty vector
-    for (int i = 0; i < cnt; i++) if (iov[i].iov_len > 0) { struct iovec v = iov[i]; if (v.iov_len > (size_t)dev_readv_clamp) v.iov_len = (size_t)dev_readv_clamp; dev_readv_clamp = -1; return syscall(SYS_readv, fd, &v, 1); } }
-  return syscall(SYS_readv, fd, iov, cnt);
-}
+// ---- fd I/O deviation injector (legal kernel answers: short write, EAGAIN on write, short read, EAGAIN on read = spurious wake-up) ----
+// Every read-type and write-type call is interposed for the descriptor under test, so a move from readv/write to read/recv/recvmsg/
+// writev/send/sendmsg cannot silently switch the deviations off; armed/fired counters are reported and check.py insists that each kind fired.
+static int inj_fd = -1; static int dev_write_clamp = -1; static bool dev_write_eagain = false; static int dev_readv_clamp = -1; static bool dev_read_eagain = false; static long long fd_written = 0;
+enum { D_WCLAMP, D_WEAGAIN, D_RCLAMP, D_REAGAIN, ND }; static long dev_armed[ND], dev_fired[ND];
+static bool w_gate(int fd, size_t &n) {            // false: the call must return -1/EAGAIN
+  if (fd != inj_fd) return true;
+  if (dev_write_eagain) { dev_write_eagain = false; dev_fired[D_WEAGAIN]++; errno = EAGAIN; return false; }
+  if (dev_write_clamp >= 0 && (size_t)dev_write_clamp < n) { n = (size_t)dev_write_clamp; dev_write_clamp = -1; dev_fired[D_WCLAMP]++; }
+  return true; }
+static int r_gate(int fd, size_t &clamp) {          // 0 pass through, 1 return -1/EAGAIN, 2 read at most `clamp` bytes
+  if (fd != inj_fd) return 0;
+  if (dev_read_eagain) { dev_read_eagain = false; dev_fired[D_REAGAIN]++; errno = EAGAIN; return 1; }
+  if (dev_readv_clamp >= 0) { clamp = (size_t)dev_readv_clamp; dev_readv_clamp = -1; dev_fired[D_RCLAMP]++; return 2; }
+  return 0; }
+static ssize_t wrote(int fd, ssize_t r) { if (fd == inj_fd && r > 0) fd_written += r; return r; }
+static int clamp_iov(const struct iovec *iov, int cnt, size_t n, struct iovec *out) { int k = 0; for (int i = 0; i < cnt && k < 16 && n > 0; i++) { if (!iov[i].iov_len) continue; out[k] = iov[i]; if (out[k].iov_len > n) out[k].iov_len = n; n -= out[k].iov_len; k++; } return k; }
+static size_t iov_total(const struct iovec *iov, int cnt) { size_t t = 0; for (int i = 0; i < cnt; i++) t += iov[i].iov_len; return t; }
+extern "C" ssize_t write(int fd, const void *b, size_t n) { if (!w_gate(fd, n)) return -1; return wrote(fd, syscall(SYS_write, fd, b, n)); }
+extern "C" ssize_t send(int fd, const void *b, size_t n, int fl) { if (!w_gate(fd, n)) return -1; return wrote(fd, syscall(SYS_sendto, fd, b, n, fl, nullptr, 0)); }
+extern "C" ssize_t writev(int fd, const struct iovec *iov, int cnt) { size_t t = iov_total(iov, cnt), n = t; if (!w_gate(fd, n)) return -1;
+  if (n < t) { struct iovec v[16]; int k = clamp_iov(iov, cnt, n, v); return wrote(fd, syscall(SYS_writev, fd, v, k)); } return wrote(fd, syscall(SYS_writev, fd, iov, cnt)); }
+extern "C" ssize_t sendmsg(int fd, const struct msghdr *m, int fl) { size_t t = iov_total(m->msg_iov, (int)m->msg_iovlen), n = t; if (!w_gate(fd, n)) return -1;
+  if (n < t) { struct iovec v[16]; struct msghdr c = *m; c.msg_iovlen = (size_t)clamp_iov(m->msg_iov, (int)m->msg_iovlen, n, v); c.msg_iov = v; return wrote(fd, syscall(SYS_sendmsg, fd, &c, fl)); } return wrote(fd, syscall(SYS_sendmsg, fd, m, fl)); }
+extern "C" ssize_t readv(int fd, const struct iovec *iov, int cnt) { size_t c = 0; int g = r_gate(fd, c); if (g == 1) return -1;      // short read: only up to c bytes, into the first non-empty vector(s)
+  if (g == 2) { struct iovec v[16]; int k = clamp_iov(iov, cnt, c, v); return syscall(SYS_readv, fd, v, k); } return syscall(SYS_readv, fd, iov, cnt); }
+extern "C" ssize_t read(int fd, void *b, size_t n) { size_t c = 0; int g = r_gate(fd, c); if (g == 1) return -1; if (g == 2 && c < n) n = c; return syscall(SYS_read, fd, b, n); }
+extern "C" ssize_t recv(int fd, void *b, size_t n, int fl) { size_t c = 0; int g = r_gate(fd, c); if (g == 1) return -1; if (g == 2 && c < n) n = c; return syscall(SYS_recvfrom, fd, b, n, fl, nullptr, nullptr); }
+extern "C" ssize_t recvmsg(int fd, struct msghdr *m, int fl) { size_t c = 0; int g = r_gate(fd, c); if (g == 1) return -1;
+  if (g == 2) { struct iovec v[16]; struct msghdr cm = *m; cm.msg_iovlen = (size_t)clamp_iov(m->msg_iov, (int)m->msg_iovlen, c, v); cm.msg_iov = v; return syscall(SYS_recvmsg, fd, &cm, fl); } return syscall(SYS_recvmsg, fd, m, fl); }
 
-enum K { SEND, ENABLE, DISABLE, PEER_READ, PEER_WRITE, PEER_CLOSE, PASS, BIND, UNBIND, DEV_WCLAMP, DEV_WEAGAIN, DEV_RCLAMP };
-static const char *kN[] = {"send", "enable", "disable", "peer-read", "peer-write", "peer-close", "pass", "bind", "unbind", "DEV:next-write-1-byte", "DEV:next-write-EAGAIN", "DEV:next-readv-1-byte"};
+// ---- private members that only feed the canonical state key / the pruning of no-op operations: read through probes, so that renaming one of
+// them makes the key coarser (and then the last operations are appended to it) instead of breaking the build. The oracle never reads them.
+VF_PROBE(read_index_) VF_PROBE(buffer_size_) VF_PROBE(sp_write_event_) VF_PROBE(sp_buffered_fd_)
+template <class T> static auto send_buffer_of(T &o, int) -> decltype(&o.send_buff_) { return &o.send_buff_; }
+template <class T> static util::Buffer *send_buffer_of(T &, long) { vf_note_missing("send_buff_"); return nullptr; }
+
+enum K { SEND, ENABLE, DISABLE, PEER_READ, PEER_WRITE, PEER_CLOSE, PEER_RESET, PASS, BIND, UNBIND, SHRINK_SEND, SHRINK_RECV, DEV_WCLAMP, DEV_WEAGAIN, DEV_RCLAMP, DEV_REAGAIN };
+static const char *kN[] = {"send", "enable", "disable", "peer-read", "peer-write", "peer-close", "peer-close-fully(reset-if-unread-data)", "pass", "bind", "unbind", "shrink-send-buffer", "shrink-recv-buffer",
+                           "DEV:next-write-1-byte", "DEV:next-write-EAGAIN", "DEV:next-read-1-byte", "DEV:next-read-EAGAIN"};
 struct Op { int k, a; };
 enum Policy { ALL, ONE, NONE_, ALL_BUT_ONE };
-enum CbMode { CB_RECORD, CB_COMPLETE_SENDS, CB_ECHO, CB_STOP };
-struct Cfg { std::string eng; bool tcp = false; size_t thr = 0; int pol = 0, cb = 0, ev = 3; bool bindops = false; };
+enum CbMode { CB_RECORD, CB_COMPLETE_SENDS, CB_ECHO, CB_STOP, CB_SHRINK };
+struct Cfg { std::string eng; bool tcp = false; size_t thr = 0; int pol = 0, cb = 0, ev = 3, kind = 0; bool bindops = false, shrinkops = false; };
 
 struct World;
 struct Receiver : network::ByteStream {          // what a bound descriptor forwards to
@@ -60,10 +92,15 @@ struct World {
   // reference model: sent = every byte handed to send() that was accepted; peer_wrote = every byte the peer wrote; consumed = bytes of peer_wrote
   // delivered so far (taken by the receive callback or forwarded to the bound receiver); presented_hi = bytes of peer_wrote shown at least once
   std::string sent, peer_got, peer_wrote; size_t consumed = 0, presented_hi = 0; bool peer_closed = false, running = false, bound = false; int zero_cb = 0, complete_cb = 0; std::string viol;
-  uint8_t sctr = 1, pctr = 101; size_t threshold; int policy, cb; bool can_read = true, can_write = true;
+  uint8_t sctr = 1, pctr = 101; size_t threshold; int policy, cb; bool can_read = true, can_write = true; bool is_pipe = false;
   bool dead = false;          // connection object gone (peer close reported, or the user disconnected)
+  bool peer_gone = false;     // the peer closed its descriptor completely: what it had not read is lost with it, later sends have nowhere to go
   int sc_sends = 0; bool stop_fired = false;
-  network::BufferedFd *B() { return tcp_mode ? tcp->sp_buffered_fd_ : bfd; }
+  // implementation objects, for the state key and for pruning no-op operations only (never for the oracle)
+  network::BufferedFd *B() { return tcp_mode ? VF_GET(sp_buffered_fd_, *tcp, (network::BufferedFd *)nullptr) : bfd; }
+  util::Buffer *recv_buffer() { return tcp_mode ? tcp->getReceiveBuffer() : bfd->getReceiveBuffer(); }                       // public accessor
+  util::Buffer *send_buffer() { network::BufferedFd *x = B(); return x ? send_buffer_of(*x, 0) : nullptr; }
+  static bool has_slack(util::Buffer *b) { return b && VF_GET(buffer_size_, *b, (size_t)-1) > b->readableSize(); }         // shrink() would change something
   size_t pw_at_bind = 0;      // peer_wrote.size() when the receiver was bound: only a byte written after that is certain to be read while bound
   // bytes that must have been shown by the time everything in the kernel has been read: unbound - the unconsumed bytes reach the threshold;
   // bound - a byte arrived after the bind (then everything undelivered is forwarded with it)
@@ -80,9 +117,10 @@ struct World {
     size_t take = policy == ALL ? n : policy == ONE ? 1 : policy == NONE_ ? 0 : n - 1; if (take > n) take = n;
     std::string taken((const char *)b.readableBegin(), take);
     b.hasRead(take); consumed += take;
-    if (cb == CB_ECHO && take > 0 && !dead) do_send(taken);                           // re-entrant send() from the receive callback
+    if (cb == CB_ECHO && take > 0 && !dead && !peer_gone) do_send(taken);              // re-entrant send() from the receive callback
     if (cb == CB_STOP && !stop_fired) { stop_fired = true;                            // re-entrant pause / disconnect from the receive callback
       if (tcp_mode) { tcp->disconnect(); dead = true; } else { bfd->disable(); running = false; } }
+    if (cb == CB_SHRINK) { if (tcp_mode) b.shrink(); else { bfd->shrinkRecvBuffer(); bfd->shrinkSendBuffer(); } }      // give memory back with residue left / a tail queued
   }
   void on_forward(const void *p, size_t n) {
     if (!bound) { viol = "bytes-forwarded-to-a-receiver-that-is-not-bound"; return; }
@@ -90,36 +128,42 @@ struct World {
     consumed += n; if (consumed > presented_hi) presented_hi = consumed;
   }
   void on_zero() { zero_cb++; if (zero_cb > 1) viol = "peer-close-reported-more-than-once";
+    if (viol.empty() && !peer_closed) viol = "peer-close-reported-although-the-peer-did-not-close";
     if (viol.empty() && unseen_due()) viol = "peer-close-reported-before-all-preceding-data-was-presented";          // by the model
-    network::BufferedFd *x = B(); size_t inbuf = x ? x->recv_buff_.readableSize() : 0;
-    if (!tcp_mode) { if (viol.empty() && consumed + inbuf != peer_wrote.size()) viol = "peer-close-reported-before-all-preceding-data-was-read"; bfd->disable(); running = false; } }
+    if (!tcp_mode) { util::Buffer *rb = recv_buffer();       // diagnostic cross-check through the public accessor; the model clause above decides
+      if (viol.empty() && rb && consumed + rb->readableSize() != peer_wrote.size()) viol = "peer-close-reported-before-all-preceding-data-was-read"; bfd->disable(); running = false; } }
   void on_disconnected() { zero_cb++; if (zero_cb > 1) viol = "disconnect-reported-more-than-once";
     if (viol.empty() && unseen_due()) viol = "disconnect-reported-before-all-preceding-data-was-presented";
     if (viol.empty() && !peer_closed) viol = "disconnect-reported-although-the-peer-did-not-close";
     dead = true; }
-  void on_complete() { complete_cb++; network::BufferedFd *x = B(); if (!x) return;
-    if (x->send_buff_.readableSize() != 0) viol = "send-complete-while-send-buffer-not-empty";
-    else if ((size_t)fd_written != sent.size()) viol = "send-complete-before-everything-was-written";
-    if (viol.empty() && cb == CB_COMPLETE_SENDS && sc_sends < 2 && !dead) { sc_sends++; std::string d; for (int i = 0; i < 2; i++) d.push_back((char)sctr++); do_send(d); } }   // re-entrant send() from send-complete
+  void on_complete() { complete_cb++; if (dead) return;
+    if (!peer_gone && (size_t)fd_written != sent.size()) viol = "send-complete-before-everything-was-written";       // fd_written: bytes the kernel really accepted (interposed)
+    if (viol.empty() && cb == CB_COMPLETE_SENDS && sc_sends < 2 && !peer_gone) { sc_sends++; std::string d; for (int i = 0; i < 2; i++) d.push_back((char)sctr++); do_send(d); }   // re-entrant send() from send-complete
+    if (viol.empty() && cb == CB_SHRINK && !tcp_mode) bfd->shrinkSendBuffer(); }
   void pass() { loop->runNext([] {}); loop->runLoop(event::Loop::Mode::kOnce); }
-  void peer_read(size_t k) { char buf[4096]; if (k > sizeof buf) k = sizeof buf; ssize_t n = recv(sv[1], buf, k, MSG_DONTWAIT); if (n > 0) { peer_got.append(buf, (size_t)n);
+  void peer_read(size_t k) { char buf[4096]; if (k > sizeof buf) k = sizeof buf; if (peer_gone) return;
+    ssize_t n = is_pipe ? syscall(SYS_read, sv[1], buf, k) : syscall(SYS_recvfrom, sv[1], buf, k, MSG_DONTWAIT, nullptr, nullptr); if (n > 0) { peer_got.append(buf, (size_t)n);
       if (peer_got.size() > sent.size() || memcmp(peer_got.data(), sent.data(), peer_got.size()) != 0) viol = "peer-received-bytes-are-not-a-prefix-of-the-sent-stream"; } }
   bool peer_write(int n) { std::string d; for (int i = 0; i < n; i++) d.push_back((char)pctr++); ssize_t r = syscall(SYS_write, sv[1], d.data(), d.size()); if (r == (ssize_t)d.size()) { peer_wrote += d; return true; } pctr -= (uint8_t)n; return false; }
   // which operations do something in the current model state (the menu offers only these; the others would leave every state component unchanged)
-  bool enabled(const Op &o) const {
+  bool enabled(const Op &o) {
     switch (o.k) {
-      case SEND: return !dead && sent.size() + o.a <= 14;
+      case SEND: return !dead && !peer_gone && sent.size() + o.a <= 14;
       case ENABLE: return !tcp_mode && zero_cb == 0 && !running;      // no in-tree user re-enables a descriptor after its peer closed
       case DISABLE: return tcp_mode ? !dead : running;
-      case PEER_READ: return (size_t)fd_written > peer_got.size();    // something is waiting in the kernel for the peer
-      case PEER_WRITE: return !peer_closed && peer_wrote.size() + o.a <= 9;
-      case PEER_CLOSE: return !peer_closed;
+      case PEER_READ: return !peer_gone && (size_t)fd_written > peer_got.size();    // something is waiting in the kernel for the peer
+      case PEER_WRITE: return !peer_closed && (!is_pipe || can_read) && peer_wrote.size() + o.a <= 9;          // (the peer of a pipe end has only one direction)
+      case PEER_CLOSE: return !peer_closed && (!is_pipe || can_read);
+      case PEER_RESET: return !peer_closed && !is_pipe;
       case PASS: return true;
       case BIND: return !dead && !bound;
       case UNBIND: return !dead && bound;
+      case SHRINK_SEND: return !tcp_mode && has_slack(send_buffer());
+      case SHRINK_RECV: return !dead && has_slack(recv_buffer());
       case DEV_WCLAMP: return dev_write_clamp != 1;
       case DEV_WEAGAIN: return !dev_write_eagain;
-      case DEV_RCLAMP: return dev_readv_clamp != 1; }
+      case DEV_RCLAMP: return dev_readv_clamp != 1;
+      case DEV_REAGAIN: return !dev_read_eagain; }
     return false; }
   void install_receive_cb() { World *pw = this; auto f = [pw](util::Buffer &b) { pw->on_recv(b); }; if (tcp_mode) tcp->setReceiveCallback(f, threshold); else bfd->setReceiveCallback(f, threshold); }
 };
@@ -127,59 +171,74 @@ bool Receiver::send(const void *p, size_t n) { w->on_forward(p, n); return true;
 
 static std::vector<Op> all_ops(const Cfg &cfg) { std::vector<Op> m;
   for (int n : {1, 2, 5}) m.push_back({SEND, n}); if (!cfg.tcp) m.push_back({ENABLE, 0}); m.push_back({DISABLE, 0});      // tcp mode: "disable" = TcpConnection::disconnect()
-  m.push_back({PEER_READ, 1}); m.push_back({PEER_READ, 64}); m.push_back({PEER_WRITE, 1}); m.push_back({PEER_WRITE, 3}); m.push_back({PEER_CLOSE, 0}); m.push_back({PASS, 0});
+  m.push_back({PEER_READ, 1}); m.push_back({PEER_READ, 64}); m.push_back({PEER_WRITE, 1}); m.push_back({PEER_WRITE, 3}); m.push_back({PEER_CLOSE, 0}); m.push_back({PEER_RESET, 0}); m.push_back({PASS, 0});
   if (cfg.bindops) { m.push_back({BIND, 0}); m.push_back({UNBIND, 0}); }
-  m.push_back({DEV_WCLAMP, 0}); m.push_back({DEV_WEAGAIN, 0}); m.push_back({DEV_RCLAMP, 0}); return m; }
+  if (cfg.shrinkops) { m.push_back({SHRINK_SEND, 0}); m.push_back({SHRINK_RECV, 0}); }
+  m.push_back({DEV_WCLAMP, 0}); m.push_back({DEV_WEAGAIN, 0}); m.push_back({DEV_RCLAMP, 0}); m.push_back({DEV_REAGAIN, 0}); return m; }
 static std::vector<Op> g_ops;
 static std::map<std::string, uint32_t> g_enabled;       // history -> bitmask over g_ops of the operations enabled in the state it reaches
 static std::string hkey(const std::vector<Op> &h) { std::string s; for (auto &o : h) { s.push_back((char)('A' + o.k)); s.push_back((char)('0' + o.a)); } return s; }
 
+static void on_alarm(int) { hx::emit_crash("blocked-in-one-history-for-60s(descriptor-left-blocking?)"); _exit(1); }
+
 static std::string run_hist(const Cfg &cfg, const std::vector<Op> &h, std::string &viol) {
-  const bool tcp_mode = cfg.tcp;
+  const bool tcp_mode = cfg.tcp; alarm(60);
   World w; w.tcp_mode = tcp_mode; w.threshold = cfg.thr; w.policy = cfg.pol; w.cb = cfg.cb; w.loop = event::Loop::New(cfg.eng); w.rcv.w = &w;
   w.can_read = tcp_mode || (cfg.ev & network::BufferedFd::kReadOnly); w.can_write = tcp_mode || (cfg.ev & network::BufferedFd::kWriteOnly);
-  socketpair(AF_UNIX, SOCK_STREAM | SOCK_NONBLOCK, 0, w.sv); inj_fd = w.sv[0]; fd_written = 0; dev_write_clamp = -1; dev_write_eagain = false; dev_readv_clamp = -1;
-  World *pw = &w;
+  // sv[0]: the descriptor under test, sv[1]: the raw peer held by the harness (always non-blocking)
+  if (cfg.kind == 2 && !tcp_mode) { int p[2]; if (pipe(p)) { viol = "harness-pipe-failed"; return "x"; } w.is_pipe = true; if (w.can_write) { w.sv[0] = p[1]; w.sv[1] = p[0]; } else { w.sv[0] = p[0]; w.sv[1] = p[1]; } }
+  else socketpair(AF_UNIX, SOCK_STREAM | (cfg.kind == 0 ? SOCK_NONBLOCK : 0), 0, w.sv);
+  fcntl(w.sv[1], F_SETFL, fcntl(w.sv[1], F_GETFL) | O_NONBLOCK);
+  inj_fd = w.sv[0]; fd_written = 0; dev_write_clamp = -1; dev_write_eagain = false; dev_readv_clamp = -1; dev_read_eagain = false;
+  bool peer_fd_open = true; World *pw = &w;
   if (tcp_mode) { w.tcp = new network::TcpConnection(w.loop, network::SocketFd(w.sv[0]), network::SockAddr()); w.running = true;
     w.install_receive_cb(); w.tcp->setSendCompleteCallback([pw] { pw->on_complete(); }); w.tcp->setDisconnectedCallback([pw] { pw->on_disconnected(); }); }
-  else { w.bfd = new network::BufferedFd(w.loop); if (!w.bfd->initialize(util::Fd(w.sv[0]), (short)cfg.ev)) { viol = "harness-initialize-failed"; return "x"; }
+  else { w.bfd = new network::BufferedFd(w.loop); if (!w.bfd->initialize(util::Fd(w.sv[0]), (short)cfg.ev)) { viol = "harness-initialize-failed"; alarm(0); return "x"; }
     w.install_receive_cb(); w.bfd->setSendCompleteCallback([pw] { pw->on_complete(); }); w.bfd->setReadZeroCallback([pw] { pw->on_zero(); }); }
   for (auto &o : h) { if (!w.viol.empty()) break;
     if (!w.enabled(o)) continue;                          // (only reachable when a history is replayed by hand)
     switch (o.k) {
-      case SEND: if (!w.dead && w.sent.size() + o.a <= 14) { std::string d; for (int i = 0; i < o.a; i++) d.push_back((char)w.sctr++); w.do_send(d); } break;
-      case ENABLE: if (!tcp_mode && w.zero_cb == 0) { w.bfd->enable(); w.running = true; } break;
+      case SEND: { std::string d; for (int i = 0; i < o.a; i++) d.push_back((char)w.sctr++); w.do_send(d); } break;
+      case ENABLE: w.bfd->enable(); w.running = true; break;
       case DISABLE: if (!tcp_mode) { w.bfd->disable(); w.running = false; }
-                    else if (!w.dead) { if (!w.tcp->disconnect()) w.viol = "disconnect-of-live-connection-returned-false"; w.dead = true; } break;   // user-side disconnect: nothing is demanded of queued bytes afterwards
+                    else { if (!w.tcp->disconnect()) w.viol = "disconnect-of-live-connection-returned-false"; w.dead = true; } break;   // user-side disconnect: nothing is demanded of queued bytes afterwards
       case PEER_READ: w.peer_read((size_t)o.a); break;
-      case PEER_WRITE: if (!w.peer_closed && w.peer_wrote.size() + o.a <= 9) w.peer_write(o.a); break;
-      case PEER_CLOSE: if (!w.peer_closed) { /* drain what the peer can still read first so close does not turn into a reset */ w.peer_read(4096); shutdown(w.sv[1], SHUT_WR); w.peer_closed = true; } break;
+      case PEER_WRITE: w.peer_write(o.a); break;
+      case PEER_CLOSE: if (w.is_pipe) { close(w.sv[1]); peer_fd_open = false; w.peer_gone = true; }
+                       else { /* drain what the peer can still read first so close does not turn into a reset */ w.peer_read(4096); shutdown(w.sv[1], SHUT_WR); } w.peer_closed = true; break;
+      case PEER_RESET: close(w.sv[1]); peer_fd_open = false; w.peer_closed = true; w.peer_gone = true; break;      // with unread data at the peer the descriptor under test sees ECONNRESET, else a plain end of stream
       case PASS: w.pass(); break;
-      case BIND: if (!w.dead && !w.bound) { if (tcp_mode) w.tcp->bind(&w.rcv); else w.bfd->bind(&w.rcv); w.bound = true; w.pw_at_bind = w.peer_wrote.size(); } break;
-      case UNBIND: if (!w.dead && w.bound) { if (tcp_mode) w.tcp->unbind(); else w.bfd->unbind(); w.bound = false; } break;
-      case DEV_WCLAMP: dev_write_clamp = 1; break;
-      case DEV_WEAGAIN: dev_write_eagain = true; break;
-      case DEV_RCLAMP: dev_readv_clamp = 1; break; }
+      case BIND: if (tcp_mode) w.tcp->bind(&w.rcv); else w.bfd->bind(&w.rcv); w.bound = true; w.pw_at_bind = w.peer_wrote.size(); break;
+      case UNBIND: if (tcp_mode) w.tcp->unbind(); else w.bfd->unbind(); w.bound = false; break;
+      case SHRINK_SEND: w.bfd->shrinkSendBuffer(); break;
+      case SHRINK_RECV: if (tcp_mode) { if (util::Buffer *b = w.tcp->getReceiveBuffer()) b->shrink(); } else w.bfd->shrinkRecvBuffer(); break;
+      case DEV_WCLAMP: dev_write_clamp = 1; dev_armed[D_WCLAMP]++; break;
+      case DEV_WEAGAIN: dev_write_eagain = true; dev_armed[D_WEAGAIN]++; break;
+      case DEV_RCLAMP: dev_readv_clamp = 1; dev_armed[D_RCLAMP]++; break;
+      case DEV_REAGAIN: dev_read_eagain = true; dev_armed[D_REAGAIN]++; break; }
   }
   // canonical state (before the closing run-to-quiescence): both buffers with their geometry (read index / capacity select the
-  // fits / memmove / grow branch of the next append and the iovec split of the next read), event and life-cycle state, model counters
-  std::string c; { char b[320]; network::BufferedFd *x = w.B();
-    snprintf(b, sizeof b, "s%zu@%zu/%zu r%zu@%zu/%zu w%d st%d|sent%zu got%zu fdw%lld|pw%zu cons%zu ph%d|pc%d z%d run%d dead%d bd%d%d|dv%d%d%d|cc%d sc%d sf%d",
-             x ? x->send_buff_.readableSize() : 0, x ? x->send_buff_.read_index_ : 0, x ? x->send_buff_.buffer_size_ : 0,
-             x ? x->recv_buff_.readableSize() : 0, x ? x->recv_buff_.read_index_ : 0, x ? x->recv_buff_.buffer_size_ : 0,
-             x && x->sp_write_event_ ? (int)x->sp_write_event_->isEnabled() : 0, x ? (int)x->state_ : 9, w.sent.size(), w.peer_got.size(), fd_written, w.peer_wrote.size(), w.consumed, (int)(w.presented_hi == w.peer_wrote.size()),
-             (int)w.peer_closed, w.zero_cb, (int)w.running, (int)w.dead, (int)w.bound, (int)(w.bound && w.peer_wrote.size() > w.pw_at_bind), dev_write_clamp, (int)dev_write_eagain, dev_readv_clamp, w.complete_cb > 0, w.sc_sends, (int)w.stop_fired); c = b; }
+  // fits / memmove / grow branch of the next append and the iovec split of the next read), event and life-cycle state, model counters.
+  // Implementation fields come through probes / public accessors; if one is missing the last operations are appended instead.
+  std::string c; { char b[360]; network::BufferedFd *x = w.B(); util::Buffer *sb = w.send_buffer(), *rb = w.dead ? nullptr : w.recv_buffer();
+    event::FdEvent *wev = x ? VF_GET(sp_write_event_, *x, (event::FdEvent *)nullptr) : nullptr;
+    snprintf(b, sizeof b, "s%zu@%zu/%zu r%zu@%zu/%zu+%zu w%d st%d|sent%zu got%zu fdw%lld|pw%zu cons%zu ph%d|pc%d%d z%d run%d dead%d bd%d%d|dv%d%d%d%d|cc%d sc%d sf%d",
+             sb ? sb->readableSize() : 0, sb ? VF_GET(read_index_, *sb, (size_t)0) : 0, sb ? VF_GET(buffer_size_, *sb, (size_t)0) : 0,
+             rb ? rb->readableSize() : 0, rb ? VF_GET(read_index_, *rb, (size_t)0) : 0, rb ? VF_GET(buffer_size_, *rb, (size_t)0) : 0, rb ? rb->writableSize() : 0,
+             wev ? (int)wev->isEnabled() : 0, x ? (int)x->state() : 9, w.sent.size(), w.peer_got.size(), fd_written, w.peer_wrote.size(), w.consumed, (int)(w.presented_hi == w.peer_wrote.size()),
+             (int)w.peer_closed, (int)w.peer_gone, w.zero_cb, (int)w.running, (int)w.dead, (int)w.bound, (int)(w.bound && w.peer_wrote.size() > w.pw_at_bind), dev_write_clamp, (int)dev_write_eagain, dev_readv_clamp, (int)dev_read_eagain, w.complete_cb > 0, w.sc_sends, (int)w.stop_fired); c = b;
+    if (vf_any_missing()) { c += "|last:"; for (size_t i = h.size() > 3 ? h.size() - 3 : 0; i < h.size(); i++) { c += kN[h[i].k]; c += (char)('0' + h[i].a); c += ','; } } }
   { uint32_t mask = 0; for (size_t q = 0; q < g_ops.size(); q++) if (w.enabled(g_ops[q])) mask |= 1u << q; g_enabled[hkey(h)] = mask; }
   // ---- liveness part of the oracle: let the loop run to quiescence with the peer draining; then everything must have arrived
   if (w.viol.empty() && w.running && !w.dead) {
     int idle = 0; size_t last = (size_t)-1;
-    for (int i = 0; i < 60 && idle < 3 && w.viol.empty(); i++) { w.pass(); w.peer_read(4096); network::BufferedFd *x = w.B(); size_t prog = w.peer_got.size() * 1000 + (x ? x->recv_buff_.readableSize() : 0) + w.consumed * 7 + (size_t)w.zero_cb * 100000 + w.sent.size() * 31; if (prog == last) idle++; else idle = 0; last = prog; if (w.dead || !w.running) break; }
-    if (w.viol.empty() && w.peer_got != w.sent && !w.dead && w.running) w.viol = "sent-bytes-never-reach-the-peer (got " + std::to_string(w.peer_got.size()) + " of " + std::to_string(w.sent.size()) + ")";
+    for (int i = 0; i < 60 && idle < 3 && w.viol.empty(); i++) { w.pass(); w.peer_read(4096); size_t prog = w.peer_got.size() * 1000 + w.presented_hi * 13 + w.consumed * 7 + (size_t)w.zero_cb * 100000 + w.sent.size() * 31; if (prog == last) idle++; else idle = 0; last = prog; if (w.dead || !w.running) break; }
+    if (w.viol.empty() && w.peer_got != w.sent && !w.dead && w.running && !w.peer_gone) w.viol = "sent-bytes-never-reach-the-peer (got " + std::to_string(w.peer_got.size()) + " of " + std::to_string(w.sent.size()) + ")";
     if (w.can_read && !w.dead && w.running) {
       // by the model alone: everything the peer wrote has been shown (callback) or forwarded (receiver) unless it is still below the threshold
       if (w.viol.empty() && w.unseen_due()) w.viol = "received-bytes-never-presented (shown " + std::to_string(w.presented_hi) + " of " + std::to_string(w.peer_wrote.size()) + ")";
-      network::BufferedFd *x = w.B();
-      if (w.viol.empty() && x && w.consumed + x->recv_buff_.readableSize() != w.peer_wrote.size()) w.viol = "received-bytes-lost-or-duplicated";
+      util::Buffer *rb = w.recv_buffer();      // diagnostic cross-check through the public accessor (the model clauses before and after it decide)
+      if (w.viol.empty() && rb && w.consumed + rb->readableSize() != w.peer_wrote.size()) w.viol = "received-bytes-lost-or-duplicated";
       // flush: the callback is replaced on the live object by one with threshold 0 that takes everything, and the peer writes one more byte:
       // every byte left unconsumed so far must come again, in order, together with the new one (callback) / be forwarded (bound receiver)
       if (w.viol.empty() && !w.peer_closed && w.zero_cb == 0) {
@@ -194,31 +253,37 @@ static std::string run_hist(const Cfg &cfg, const std::vector<Op> &h, std::strin
   if (w.viol.empty() && !w.can_read && (w.consumed || w.presented_hi || w.zero_cb)) w.viol = "write-only-descriptor-delivered-received-data";
   viol = w.viol; inj_fd = -1;
   if (tcp_mode) delete w.tcp; else delete w.bfd;
-  w.pass(); delete w.loop; close(w.sv[1]); if (tcp_mode) { /* fd owned by the connection */ }
+  w.pass(); delete w.loop; if (peer_fd_open) close(w.sv[1]);       // sv[0] is owned (and closed) by the object under test
+  alarm(0);
   return c;
 }
 
 static void pass(event::Loop *loop) { loop->runNext([] {}); loop->runLoop(event::Loop::Mode::kOnce); }
 
-static int bulk(const std::string &eng) {       // engine I lane: real kernel back-pressure, large sends
+static void make_pair(bool pipe_kind, bool under_test_writes, int sv[2]) {      // sv[0] under test (left blocking for pipes: initialize() must switch it), sv[1] raw peer (non-blocking)
+  if (pipe_kind) { int p[2]; if (pipe(p)) abort(); if (under_test_writes) { sv[0] = p[1]; sv[1] = p[0]; } else { sv[0] = p[0]; sv[1] = p[1]; } fcntl(sv[1], F_SETFL, fcntl(sv[1], F_GETFL) | O_NONBLOCK); }
+  else socketpair(AF_UNIX, SOCK_STREAM | SOCK_NONBLOCK, 0, sv); }
+
+static int bulk(const std::string &eng) {       // engine I lane: real kernel back-pressure, large sends; over a socketpair and over a pipe
   size_t cases = 0;
-  for (size_t total : {65536ul, 262144ul, 1048576ul, 2097152ul}) for (size_t chunk : {total, total / 7 + 1}) for (size_t step : {4096ul, 65536ul}) for (int pre_enable = 0; pre_enable < 2; pre_enable++) {
-    event::Loop *loop = event::Loop::New(eng); int sv[2]; socketpair(AF_UNIX, SOCK_STREAM | SOCK_NONBLOCK, 0, sv); int sz = 4096; setsockopt(sv[0], SOL_SOCKET, SO_SNDBUF, &sz, sizeof sz);
-    inj_fd = sv[0]; fd_written = 0; auto *bfd = new network::BufferedFd(loop); bfd->initialize(util::Fd(sv[0])); int complete = 0; bool early = false; size_t sent = 0;
-    bfd->setSendCompleteCallback([&] { complete++; if ((size_t)fd_written != sent || bfd->send_buff_.readableSize()) early = true; });
+  for (int pipe_kind = 0; pipe_kind < 2; pipe_kind++) for (size_t total : {65536ul, 262144ul, 1048576ul, 2097152ul}) for (size_t chunk : {total, total / 7 + 1}) for (size_t step : {4096ul, 65536ul}) for (int pre_enable = 0; pre_enable < 2; pre_enable++) {
+    alarm(300);
+    event::Loop *loop = event::Loop::New(eng); int sv[2]; make_pair(pipe_kind, true, sv); int sz = 4096; if (pipe_kind) fcntl(sv[0], F_SETPIPE_SZ, sz); else setsockopt(sv[0], SOL_SOCKET, SO_SNDBUF, &sz, sizeof sz);
+    inj_fd = sv[0]; fd_written = 0; auto *bfd = new network::BufferedFd(loop); bfd->initialize(util::Fd(sv[0]), pipe_kind ? network::BufferedFd::kWriteOnly : network::BufferedFd::kReadWrite); int complete = 0; bool early = false; size_t sent = 0;
+    bfd->setSendCompleteCallback([&] { complete++; if ((size_t)fd_written != sent) early = true; });
     if (pre_enable) bfd->enable();
     std::string data(total, 0); for (size_t i = 0; i < total; i++) data[i] = (char)((i * 131 + (i >> 8)) & 0xff);
     for (size_t off = 0; off < total; off += chunk) { size_t n = std::min(chunk, total - off); bfd->send(data.data() + off, n); sent += n; }
     if (!pre_enable) bfd->enable();
     std::string got; std::vector<char> buf(step); int idle = 0;
-    for (int i = 0; i < 100000 && got.size() < total && idle < 50; i++) { pass(loop); ssize_t n = recv(sv[1], buf.data(), step, MSG_DONTWAIT); if (n > 0) { got.append(buf.data(), (size_t)n); idle = 0; } else idle++; }
+    for (int i = 0; i < 100000 && got.size() < total && idle < 50; i++) { pass(loop); ssize_t n = syscall(SYS_read, sv[1], buf.data(), step); if (n > 0) { got.append(buf.data(), (size_t)n); idle = 0; } else idle++; }
     for (int i = 0; i < 3; i++) pass(loop);
-    cases++; char desc[128]; snprintf(desc, sizeof desc, "bulk %s total=%zu chunk=%zu peer-step=%zu enable-%s", eng.c_str(), total, chunk, step, pre_enable ? "before-send" : "after-send");
+    cases++; char desc[160]; snprintf(desc, sizeof desc, "bulk %s %s total=%zu chunk=%zu peer-step=%zu enable-%s", eng.c_str(), pipe_kind ? "pipe" : "socketpair", total, chunk, step, pre_enable ? "before-send" : "after-send");
     if (got != data) printf("@VIOL sig=bulk-stream-not-preserved(got_%zu_of_%zu) :: %s\n", got.size(), total, desc);
     else if (early) printf("@VIOL sig=bulk-send-complete-before-everything-written :: %s\n", desc);
     else if (complete < 1) printf("@VIOL sig=bulk-send-complete-never-reported :: %s\n", desc);
-    if (cases <= 2) printf("@SAMPLE %s => received %zu bytes, send-complete x%d\n", desc, got.size(), complete);
-    inj_fd = -1; delete bfd; pass(loop); delete loop; close(sv[1]);
+    if (cases <= 2 || (pipe_kind && cases <= 34)) printf("@SAMPLE %s => received %zu bytes, send-complete x%d\n", desc, got.size(), complete);
+    inj_fd = -1; delete bfd; pass(loop); delete loop; close(sv[1]); alarm(0);
   }
   printf("@STAT states=%zu transitions=%zu executions=%zu\n", cases, cases, cases); return 0;
 }
@@ -229,13 +294,14 @@ static int bulk(const std::string &eng) {       // engine I lane: real kernel ba
 // of the receive buffer while it holds unconsumed data. Oracle: the same reference stream as the history lane.
 static int bulk_recv(const std::string &eng) {
   size_t cases = 0; double t_end = hx::deadline_from_env(600); bool capped = false;
-  for (size_t total : {1024ul, 1025ul, 3000ul, 65536ul, 1048576ul}) for (size_t thr : {0ul, 1500ul}) for (int pre_enable = 0; pre_enable < 2; pre_enable++) for (int variant = 0; variant < 4; variant++) for (int big_step = 0; big_step < 2; big_step++) {
+  for (size_t total : {1024ul, 1025ul, 3000ul, 65536ul, 1048576ul}) for (size_t thr : {0ul, 1500ul}) for (int pre_enable = 0; pre_enable < 2; pre_enable++) for (int variant = 0; variant < 4; variant++) for (int big_step = 0; big_step < 2; big_step++) for (int pipe_kind = 0; pipe_kind < 2; pipe_kind++) {
     if (hx::now_s() > t_end) { capped = true; continue; }
+    alarm(300);
     const bool fwd = variant == 3; const int pol = variant == 0 ? ALL : variant == 1 ? ALL_BUT_ONE : NONE_;
     const size_t step = big_step ? 65536 : total / 13 + 1;
-    event::Loop *loop = event::Loop::New(eng); int sv[2], sv2[2] = {-1, -1}; socketpair(AF_UNIX, SOCK_STREAM | SOCK_NONBLOCK, 0, sv);
+    event::Loop *loop = event::Loop::New(eng); int sv[2], sv2[2] = {-1, -1}; make_pair(pipe_kind, false, sv);
     std::string data(total, 0); for (size_t i = 0; i < total; i++) data[i] = (char)((i * 167 + (i >> 7) + 3) & 0xff);
-    auto *bfd = new network::BufferedFd(loop); bfd->initialize(util::Fd(sv[0]), fwd ? network::BufferedFd::kReadOnly : network::BufferedFd::kReadWrite);
+    auto *bfd = new network::BufferedFd(loop); bfd->initialize(util::Fd(sv[0]), (fwd || pipe_kind) ? network::BufferedFd::kReadOnly : network::BufferedFd::kReadWrite);
     network::BufferedFd *out = nullptr; std::string viol; size_t consumed = 0, presented_hi = 0, wrote = 0; int zero = 0, callbacks = 0;
     bfd->setReceiveCallback([&](util::Buffer &b) { callbacks++; size_t n = b.readableSize();
       if (fwd) { viol = "bulk-receive-callback-while-a-receiver-is-bound"; return; }
@@ -253,7 +319,7 @@ static int bulk_recv(const std::string &eng) {
       if (wrote < total) { ssize_t r = syscall(SYS_write, sv[1], data.data() + wrote, std::min(step, total - wrote)); if (r > 0) { wrote += (size_t)r; progress = true; } }
       if (!enabled && (wrote >= total || i >= 2)) { bfd->enable(); enabled = true; progress = true; }      // late enable: data is already waiting in the kernel
       pass(loop);
-      if (fwd) { ssize_t n = recv(sv2[1], buf.data(), buf.size(), MSG_DONTWAIT); if (n > 0) { got2.append(buf.data(), (size_t)n); progress = true;
+      if (fwd) { ssize_t n = syscall(SYS_read, sv2[1], buf.data(), buf.size()); if (n > 0) { got2.append(buf.data(), (size_t)n); progress = true;
           if (got2.size() > wrote || memcmp(got2.data() + got2.size() - n, data.data() + got2.size() - n, (size_t)n) != 0) viol = "bulk-forwarded-bytes-are-not-a-prefix-of-the-received-stream"; } }
       size_t seen = fwd ? got2.size() : presented_hi; if (seen != last_seen) progress = true; last_seen = seen;
       idle = progress ? 0 : idle + 1;
@@ -261,29 +327,31 @@ static int bulk_recv(const std::string &eng) {
     }
     if (viol.empty()) { if (fwd) { if (got2 != data) viol = "bulk-forwarded-stream-not-preserved(got_" + std::to_string(got2.size()) + "_of_" + std::to_string(total) + ")"; }
       else if (presented_hi < total && total - consumed >= thr) viol = "bulk-received-bytes-never-presented(shown_" + std::to_string(presented_hi) + "_of_" + std::to_string(total) + ")"; }
-    if (viol.empty()) { shutdown(sv[1], SHUT_WR); for (int i = 0; i < 4; i++) pass(loop); if (zero != 1) viol = "bulk-peer-close-reported-" + std::to_string(zero) + "-times"; }
-    cases++; char desc[192]; snprintf(desc, sizeof desc, "bulkrecv %s total=%zu peer-step=%zu threshold=%zu %s enable-%s", eng.c_str(), total, step, thr,
+    bool peer_open = true;
+    if (viol.empty()) { if (pipe_kind) { close(sv[1]); peer_open = false; } else shutdown(sv[1], SHUT_WR); for (int i = 0; i < 4; i++) pass(loop); if (zero != 1) viol = "bulk-peer-close-reported-" + std::to_string(zero) + "-times"; }
+    cases++; char desc[224]; snprintf(desc, sizeof desc, "bulkrecv %s %s total=%zu peer-step=%zu threshold=%zu %s enable-%s", eng.c_str(), pipe_kind ? "pipe" : "socketpair", total, step, thr,
                                      fwd ? "bound-to-second-BufferedFd(SO_SNDBUF=4096,slow-reader)" : pol == ALL ? "callback-takes-all" : pol == NONE_ ? "callback-takes-nothing" : "callback-takes-all-but-1", pre_enable ? "before-data" : "after-data");
     if (!viol.empty()) printf("@VIOL sig=%s :: %s\n", viol.c_str(), desc);
     if (cases <= 2 || (fwd && cases < 12)) printf("@SAMPLE %s => %d callbacks, delivered %zu, forwarded %zu, peer-close x%d\n", desc, callbacks, consumed, got2.size(), zero);
     if (fwd) bfd->unbind();
-    delete bfd; delete out; pass(loop); delete loop; close(sv[1]); if (sv2[1] >= 0) close(sv2[1]);
+    delete bfd; delete out; pass(loop); delete loop; if (peer_open) close(sv[1]); if (sv2[1] >= 0) close(sv2[1]); alarm(0);
   }
   if (capped) printf("@CAP bulkrecv %s: deadline reached after %zu cases\n", eng.c_str(), cases);
   printf("@STAT states=%zu transitions=%zu executions=%zu\n", cases, cases, cases); return 0;
 }
 
 int main(int argc, char **argv) {
-  signal(SIGPIPE, SIG_IGN); hx::install_crash_reporter("C06-crash");
+  signal(SIGPIPE, SIG_IGN); hx::install_crash_reporter("C06-crash"); signal(SIGALRM, on_alarm);
   std::string what = argc > 1 ? argv[1] : "hist"; Cfg cfg; cfg.eng = argc > 2 ? argv[2] : "epoll";
   if (what == "bulk") return bulk(cfg.eng);
   if (what == "bulkrecv") return bulk_recv(cfg.eng);
   size_t depth = argc > 3 ? atoi(argv[3]) : 5; cfg.tcp = argc > 4 && !strcmp(argv[4], "tcp"); cfg.thr = argc > 5 ? atoi(argv[5]) : 0; cfg.pol = argc > 6 ? atoi(argv[6]) : 0; int maxdev = argc > 7 ? atoi(argv[7]) : 1;
   hx::Explorer<Op> ex;
   if (argc > 9) { ex.part = atoi(argv[8]); ex.nparts = atoi(argv[9]); }
-  for (int i = 10; i < argc; i++) { if (!strncmp(argv[i], "cb=", 3)) cfg.cb = atoi(argv[i] + 3); else if (!strncmp(argv[i], "ev=", 3)) cfg.ev = atoi(argv[i] + 3); else if (!strncmp(argv[i], "bind=", 5)) cfg.bindops = atoi(argv[i] + 5) != 0; }
+  for (int i = 10; i < argc; i++) { if (!strncmp(argv[i], "cb=", 3)) cfg.cb = atoi(argv[i] + 3); else if (!strncmp(argv[i], "ev=", 3)) cfg.ev = atoi(argv[i] + 3); else if (!strncmp(argv[i], "bind=", 5)) cfg.bindops = atoi(argv[i] + 5) != 0;
+    else if (!strncmp(argv[i], "shrink=", 7)) cfg.shrinkops = atoi(argv[i] + 7) != 0; else if (!strncmp(argv[i], "kind=", 5)) cfg.kind = atoi(argv[i] + 5); }
   const bool tcp = cfg.tcp;
-  char nm[128]; snprintf(nm, sizeof nm, "%s-%s-thr%zu-pol%d-cb%d-ev%d-bind%d", cfg.eng.c_str(), tcp ? "tcp" : "bfd", cfg.thr, cfg.pol, cfg.cb, cfg.ev, (int)cfg.bindops); ex.name = nm; ex.deadline_s = hx::deadline_from_env(600);
+  char nm[128]; snprintf(nm, sizeof nm, "%s-%s-thr%zu-pol%d-cb%d-ev%d-bind%d-shrink%d-kind%d", cfg.eng.c_str(), tcp ? "tcp" : "bfd", cfg.thr, cfg.pol, cfg.cb, cfg.ev, (int)cfg.bindops, (int)cfg.shrinkops, cfg.kind); ex.name = nm; ex.deadline_s = hx::deadline_from_env(600);
   ex.show = [](const Op &o) { char b[48]; if (o.k == SEND || o.k == PEER_READ || o.k == PEER_WRITE) snprintf(b, 48, "%s(%d)", kN[o.k], o.a); else snprintf(b, 48, "%s", kN[o.k]); return std::string(b); };
   g_ops = all_ops(cfg);
   ex.menu = [&](const std::vector<Op> &h) { std::vector<Op> m; int dev = 0; for (auto &o : h) if (o.k >= DEV_WCLAMP) dev++;
@@ -293,5 +361,7 @@ int main(int argc, char **argv) {
   ex.sig = [](const std::string &v) { return v.substr(0, v.find(' ')); };
   ex.run = [&](const std::vector<Op> &h, std::string &viol) { return run_hist(cfg, h, viol); };
   ex.explore(depth);
+  printf("@STAT dev_armed_wclamp=%ld dev_fired_wclamp=%ld dev_armed_weagain=%ld dev_fired_weagain=%ld dev_armed_rclamp=%ld dev_fired_rclamp=%ld dev_armed_reagain=%ld dev_fired_reagain=%ld\n",
+         dev_armed[D_WCLAMP], dev_fired[D_WCLAMP], dev_armed[D_WEAGAIN], dev_fired[D_WEAGAIN], dev_armed[D_RCLAMP], dev_fired[D_RCLAMP], dev_armed[D_REAGAIN], dev_fired[D_REAGAIN]);
   return 0;
 }
